@@ -136,6 +136,7 @@ def run(ctx):
     guardrule.controls(ctx, fx, 'C05-R2')
     r3_free_column(ctx, F)
     r4_clamp_bounds(ctx, F)
+    r5_column_set_width(ctx, F)
     ctx.assume('all times come through the decoder bound 2^31 and a clock rate >= 0.01, so |t| <= 2.2e11 (f64 ulp <= 3.1e-5); '
                'every f64 step in the accepted loops is >= 1e-4')
     ctx.assume('RefCell permits nested shared borrows (read under read)')
@@ -371,3 +372,158 @@ def r4_clamp_bounds(ctx, F):
                             'e.g. for a setting at the edge of its documented range' % (fn.path, prov.show(lo, maxdepth=3)[:60], prov.show(hi, maxdepth=5)[:200]))
     ctx.floor('C05-R4', n, 20, 'clamp calls')
     ctx.ok('C05-R4', 'scan', '%d clamp calls, %d with a non-constant bound' % (n, nvar))
+
+
+# ---- R5: the column bit set is wide enough for every column count a conversion can choose (seed C05-7: DualStages doubling the count to 18 / 20)
+INF = float('inf')
+
+
+def _interval(v, depth=0):
+    """[lo, hi] of a numeric value tree: constants, phi hulls, + - *, min / max / clamp, bool and integer widenings; anything else is unbounded"""
+    v = prov.strip(v, names=set())
+    if depth > 40:
+        return (-INF, INF)
+    k = v[0]
+    if k == 'const':
+        c = prov.const_val(v)
+        try:
+            x = float(c)
+            return (x, x)
+        except (TypeError, ValueError):
+            if c in ('true', 'false'):
+                return (0.0, 1.0)
+            return (-INF, INF)
+    if k == 'phi':
+        alts = [_interval(a, depth + 1) for a in v[1] if not _infeasible(a)]
+        if not alts:
+            return (-INF, INF)
+        return (min(a[0] for a in alts), max(a[1] for a in alts))
+    if k == 'cast':
+        return _interval(v[2], depth + 1)
+    if k == 'field' and str(v[2]) == '0' and v[1][0] == 'binop' and v[1][1].endswith('WithOverflow'):
+        return _interval(('binop', v[1][1][:-len('WithOverflow')], v[1][2], v[1][3]), depth + 1)
+    if k == 'field' and str(v[2]) == '0':
+        inner = prov.strip(v[1], names=set())
+        if inner[0] == 'variant' and inner[2] == 'Some':
+            return _interval(inner[1], depth + 1)
+    if k == 'agg' and len(v) > 4 and v[3] == 'Some' and '0' in v[4]:
+        return _interval(v[4]['0'], depth + 1)
+    if k == 'binop':
+        op = v[1]
+        if op in ('Gt', 'Ge', 'Lt', 'Le', 'Eq', 'Ne'):
+            return (0.0, 1.0)
+        a, b = _interval(v[2], depth + 1), _interval(v[3], depth + 1)
+        if op.startswith('Add'):
+            return (a[0] + b[0], a[1] + b[1])
+        if op.startswith('Sub'):
+            return (a[0] - b[1], a[1] - b[0])
+        if op.startswith('Mul'):
+            ps = [x * y for x in a for y in b if not (abs(x) == INF and y == 0) and not (abs(y) == INF and x == 0)]
+            return (min(ps), max(ps)) if ps and not any(p != p for p in ps) else (-INF, INF)
+        return (-INF, INF)
+    if k == 'call':
+        name = v[1].get('name')
+        args = v[2]
+        if name in _LEAF and v[1].get('local'):
+            return _LEAF[name]
+        if name in ('from', 'into') and len(args) == 1:
+            return _interval(args[0], depth + 1)
+        if name == 'min' and len(args) == 2:
+            a, b = _interval(args[0], depth + 1), _interval(args[1], depth + 1)
+            return (min(a[0], b[0]), min(a[1], b[1]))
+        if name == 'max' and len(args) == 2:
+            a, b = _interval(args[0], depth + 1), _interval(args[1], depth + 1)
+            return (max(a[0], b[0]), max(a[1], b[1]))
+        if name == 'clamp' and len(args) == 3:
+            lo, hi = _interval(args[1], depth + 1), _interval(args[2], depth + 1)
+            return (lo[0], hi[1])
+        if name in ('round', 'round_ties_even', 'floor', 'ceil', 'trunc') and len(args) == 1:
+            a = _interval(args[0], depth + 1)
+            return (a[0] - 1, a[1] + 1)
+    return (-INF, INF)
+
+
+def _infeasible(a):
+    a = prov.strip(a, names=set())
+    while a[0] == 'field':
+        a = prov.strip(a[1], names=set())
+    return (a[0] == 'unknown' and len(a) > 1 and a[1] == 'variant mismatch') or (a[0] == 'agg' and len(a) > 3 and a[3] == 'None')
+
+
+def _float_consts(F, fn, depth=0, seen=None):
+    """every floating-point constant written in fn, its closures, the local functions it calls (two levels) and the constant items it names"""
+    import json
+    import re as _re
+    seen = seen if seen is not None else set()
+    if fn is None or fn.path in seen or depth > 2:
+        return set()
+    seen.add(fn.path)
+    out = set()
+    txt = json.dumps(fn.blocks)
+    for m_ in _re.finditer(r'"tk": "float"[^}]*?"val": "([^"]+)"', txt):
+        try:
+            out.add(float(m_.group(1)))
+        except ValueError:
+            pass
+    for c in F.j.get('consts', []):
+        cp = c.get('path') or ''
+        if cp and ('"%s"' % cp) in txt or (cp.startswith(fn.path + '::') and 'mir' in c):
+            for m_ in _re.finditer(r'"tk": "float"[^}]*?"val": "([^"]+)"', json.dumps(c.get('mir', {}))):
+                try:
+                    out.add(float(m_.group(1)))
+                except ValueError:
+                    pass
+    for g in F.fns:
+        if g.path.startswith(fn.path + '::{closure'):
+            out |= _float_consts(F, g, depth, seen)
+    for bi, t in fn.calls():
+        if t['func'].get('local'):
+            out |= _float_consts(F, F.fn(t['func'].get('path') or ''), depth + 1, seen)
+    return out
+
+
+_LEAF = {}
+
+
+def r5_column_set_width(ctx, F):
+    """`ContainedColumns` keeps the occupied columns of a pattern as bits of one integer and shifts `1 << column`; columns run below the column count the
+    conversion chose, which is what `target_columns` returns (it becomes `map.cs`, read back as `total_columns`).  The largest value `target_columns` can return
+    (interval evaluation of its result: key-mod constants, the computed alternatives, min / max) must not exceed the bit width of that integer — beyond it the shift
+    overflows (a panic with overflow checks, aliased columns without)."""
+    import combin
+    cc = F.adts.get('mania::convert::pattern::ContainedColumns')
+    f = F.fn('mania::convert::target_columns')
+    if cc is None or f is None:
+        ctx.violation('C05-R5', 'anchor-missing:column-set', 'mania::convert::pattern::ContainedColumns / mania::convert::target_columns not found')
+        return
+    ctx.saw(f)
+    ty = cc['variants'][0]['fields'][0]['ty'].get('s')
+    width = {'u8': 8, 'u16': 16, 'u32': 32, 'u64': 64, 'u128': 128, 'usize': 64}.get(ty)
+    rv = prov.prov_of(f).return_value()
+    # the key-mod accessor answers with one of the constants written in it (row by row: C08-R1); however it finds the row (an if-chain, a table and a search),
+    # its result lies between the smallest and the largest of them
+    mk = F.fn('model::mods::GameMods::mania_keys')
+    _LEAF.clear()
+    if mk is not None:
+        cs = _float_consts(F, mk)
+        if cs:
+            _LEAF['mania_keys'] = (min(cs), max(cs))
+    rv = prov.inline_all(F, rv, depth=3, _seen=(f.path,), only=lambda f_: f_.get('local') and not f_.get('trait') and f_.get('name') != 'mania_keys')
+    rv = combin.expand(F, rv)
+    # helpers called from inside the expanded combinator closures (`.or_else(|| by_ratio(map))`) are read through in a second round
+    rv = prov.inline_all(F, rv, depth=3, _seen=(f.path,), only=lambda f_: f_.get('local') and not f_.get('trait') and f_.get('name') != 'mania_keys')
+    rv = combin.expand(F, rv)
+    lo, hi = _interval(rv)
+    # the shifts themselves: every `1 << column` of the set's methods is on the storage integer (not a narrower temporary)
+    nshift = 0
+    for fn in F.fns:
+        if fn.self_adt == 'mania::convert::pattern::ContainedColumns':
+            for bi, si, s_ in fn.assigns():
+                if s_['rv']['k'] == 'binop' and str(s_['rv'].get('op', '')).startswith('Shl'):
+                    nshift += 1
+    ok = width is not None and hi != INF and hi <= width
+    ctx.require(ok, 'C05-R5', 'column-set-width', 'target_columns returns at most %s columns; ContainedColumns stores them in a %s (%s bits, %d shift site(s))' % (
+        ('%g' % hi) if hi != INF else 'an unbounded number of', ty, width, nshift), f.where(),
+        bad='a conversion can choose up to %s columns (target_columns, helpers inlined) but ContainedColumns keeps them as bits of a %s: `1 << column` overflows for '
+            'column >= %s — a panic with overflow checks on, silently aliased columns otherwise' % (('%g' % hi) if hi != INF else 'unboundedly many', ty, width))
+    ctx.floor('C05-R5', nshift, 2, 'shift sites in ContainedColumns')
